@@ -33,6 +33,8 @@ def run(prog, rep):
                      '(floor), so the nanoseconds remainder is 0..999999999', floor=2)
     rep.rule('R6.4', 'multi-byte scalars reach the output only as big-endian (EMITBE through NativeToBigEndian), never as native-order raw bytes', floor=2 * 40)
     check_scope_headers(prog, rep)
+    from rules import byte_sequences
+    byte_sequences.check(prog, rep, 'R6.10', 'Write')
     T = W.writer_tables(prog)
 
     # ------------------------------------------------------------------ R6.1 / R6.4
